@@ -71,7 +71,7 @@ def _do(gb, fresh_builder, op, rng, n, raw_keys, bufs=None):
     if reuse:                    # the caller's long-lived buffers (refilled in place by the "refill" steps)
         v, m = bufs["v"], bufs["m"]
     fresh = fresh_builder()
-    if op in ("reduce", "transform", "size"):
+    if op in ("reduce", "reduce_pos", "transform", "size"):
         # reductions also see value dtypes without an in-band null and slice / positional masks
         r = rng.random()
         if r < 0.5 and not reuse:
@@ -81,8 +81,13 @@ def _do(gb, fresh_builder, op, rng, n, raw_keys, bufs=None):
         if r < 0.2 and n >= 2:
             k = rng.randrange(1, n)
             m = slice(k, None) if rng.random() < 0.6 else slice(None, k)
-        elif r < 0.3:
-            m = np.array(sorted(rng.sample(range(n), rng.randrange(1, n + 1))), dtype=np.int64)   # (sorted, no repeats)
+    if op == "reduce_pos":
+        # integer positions, repeated and in any order (array indexing semantics); the library unifies chunked keys first
+        m = np.array([rng.randrange(-n, n) for _ in range(rng.randrange(1, n + 2))], dtype=np.int64)
+        if rng.random() < 0.3:
+            return _equal(_try(gb.size, mask=m), _try(fresh.size, mask=m)), gb
+        f = rng.choice(["sum", "min", "last", "count", "mean", "first", "max"])
+        return _equal(_try(getattr(gb, f), v, mask=m), _try(getattr(fresh, f), v, mask=m)), gb
     if op == "reduce":
         f = rng.choice(["sum", "min", "last", "count", "mean", "first", "max"])
         return _equal(_try(getattr(gb, f), v, mask=m), _try(getattr(fresh, f), v, mask=m)), gb
